@@ -73,6 +73,22 @@ func (run *FuncRun) invokeArgs(st *State, fn *ssa.Function, recv Term, rest []Va
 
 func (run *FuncRun) unknownCall(st *State, in *ssa.Call, what string) {
 	run.unknownCalls[what] = true
+	c := in.Common()
+	for _, a := range c.Args {
+		switch x := run.val(st, a).(type) {
+		case Term:
+			st.escape(x.S)
+		case *Closure:
+			run.funcTerm(st, x)
+		case *LVal:
+			st.escape(x.Ref.S)
+		}
+	}
+	if c.IsInvoke() {
+		if t, ok := run.val(st, c.Value).(Term); ok {
+			st.escape(t.S)
+		}
+	}
 	st.HavocAll("call of " + what)
 	run.set(st, in, run.freshResults(st, in.Common().Signature().Results(), "res"))
 }
@@ -226,7 +242,7 @@ func (run *FuncRun) bindResults(env *CEnv, sig *types.Signature, res Val, fc *Fu
 			env.vars["ret"] = cv
 		}
 		if i == results.Len()-1 && isErrorType(results.At(i).Type()) {
-			if _, taken := env.vars["err"]; !taken || results.At(i).Name() == "" {
+			if _, taken := env.vars["err"]; !taken {
 				env.vars["err"] = cv
 			}
 		}
@@ -448,6 +464,9 @@ func (run *FuncRun) applyContract(st *State, fc *FuncContract, sig *types.Signat
 	}
 	where := run.posOf(in)
 	st.script.Comment("call " + fc.Key + " @ " + where)
+	for _, n := range names {
+		st.escape(env.vars[n].T.S)
+	}
 	// preconditions
 	for i, cl := range fc.Requires {
 		goals := env.proveGoals(cl.Expr)
@@ -725,6 +744,13 @@ func (run *FuncRun) execAppend(st *State, c *ssa.CallCommon, args []Val, in ssa.
 	}
 	t := run.valToTerm(st, args[1])
 	h := st.H(name, aso)
+	// appended elements are (conservatively) reachable through the result
+	st.escape(Select(h, SliceArr(t)).S)
+	if n, elems := run.staticElems(st, c.Args[1], t, es); n >= 0 {
+		for _, e := range elems {
+			st.escape(e.S)
+		}
+	}
 	lenS, lenT := SliceLen(s), SliceLen(t)
 	newLen := st.Name("len", Add(lenS, lenT))
 	inplace := st.Name("inplace", Le(newLen, SliceCap(s)))
